@@ -574,10 +574,10 @@ class Visitor:
         except (LastNodeError, AttributeError):
             docstring = None
 
-        own_labels, own_docstring, own_annotation = labels, docstring, annotation
+        own_labels, own_docstring, own_annotation, own_value = labels, docstring, annotation, value
         for name in names:
             # What is forwarded from a previous definition of one name must not leak to the other names (`a = b = 0`).
-            labels, docstring, annotation = set(own_labels), own_docstring, own_annotation
+            labels, docstring, annotation, value = set(own_labels), own_docstring, own_annotation, own_value
 
             # TODO: Handle assigns like `x.y = z`.
             # We need to resolve `x.y` and add `z` in its members.
@@ -599,6 +599,9 @@ class Visitor:
                     with suppress(AttributeError):
                         if existing_member.annotation and not annotation:  # type: ignore[union-attr]
                             annotation = existing_member.annotation  # type: ignore[union-attr]
+                    # A bare annotation (`x: int`) binds nothing: the name keeps the value it was given before.
+                    if node.value is None and existing_member.is_attribute:
+                        value = existing_member.value  # type: ignore[union-attr]
 
             attribute = Attribute(
                 name=name,
